@@ -292,6 +292,7 @@ void genGroup(Prng& r, Plan& p, int)
 	int n = 1 + (int)r.below(6);
 	for (int i = 0; i < n; i++)
 		p.ops.push_back(op("w", {(int64_t)r.below(4), (int64_t)r.below(5)}));
+	p.p["rounds"] = r.below(3) == 0 ? 2 + r.below(2) : 1; // the same group started and joined again
 }
 void runGroup(const Plan& p)
 {
@@ -305,20 +306,26 @@ void runGroup(const Plan& p)
 		asl::ThreadGroup<GWorker> grp;
 		for (size_t i = 0; i < n; i++)
 			grp << GWorker(&cells[i], bodies[i]);
-		sim::event("group start %zu", n);
-		grp.start();
-		grp.join();
-		sim::NoSched ns;
-		if (n >= 2)
-			sim::setNontrivial();
-		for (size_t i = 0; i < n; i++)
+		int rounds = (int)std::max<int64_t>(1, std::min<int64_t>(3, p.get("rounds", 1)));
+		for (int round = 1; round <= rounds; round++)
 		{
-			if (cells[i].runs != 1)
-				sim::fail("exactly_once", "thread_group", "ThreadGroup of %zu: member %zu ran %d times when join() returned", n, i, cells[i].runs);
-			else if (!cells[i].done)
-				sim::fail("join_visibility", "thread_group", "ThreadGroup of %zu: join() returned before member %zu completed", n, i);
-			if (!grp._threads[(int)i].finished())
-				sim::fail("finished_false_after_join", "thread_group", "ThreadGroup member %zu: finished() false after join()", i);
+			sim::event("group start %zu (round %d)", n, round);
+			grp.start();
+			grp.join();
+			sim::NoSched ns;
+			if (n >= 2)
+				sim::setNontrivial();
+			const char* key = round == 1 ? "thread_group" : "thread_group;restarted";
+			for (size_t i = 0; i < n; i++)
+			{
+				if (cells[i].runs != round)
+					sim::fail("exactly_once", key, "ThreadGroup of %zu, start/join round %d: member %zu had run %d times when join() returned", n, round, i, cells[i].runs);
+				else if (!cells[i].done)
+					sim::fail("join_visibility", key, "ThreadGroup of %zu, start/join round %d: join() returned before member %zu completed", n, round, i);
+				if (!grp._threads[(int)i].finished())
+					sim::fail("finished_false_after_join", key, "ThreadGroup member %zu: finished() false after join() (round %d)", i, round);
+				cells[i].done = 0;
+			}
 		}
 	}
 }
